@@ -149,6 +149,8 @@ Fixpoint reserve (table_bound : bool) (fuel : nat) (f : bfile) (H : N) (name : l
       | None => (NFault, f)
       | Some limit =>
           let '(start, e) := place32 H limit (N.of_nat (length name)) in
+          (* fix 633eed3: the record or its page would end beyond 4 GiB (uint32 overflow) *)
+          if (start <? limit) || (e <? start) || (round32 e RPAGE <? e) then (NErr RCorrupt, f) else
           if b_len f <? e then
             (* extend(end) *)
             let e' := round32 e RPAGE in
@@ -176,11 +178,3 @@ Definition new_counter (f : bfile) (H : N) (name : list N) : nres * bfile :=
 Definition add_cell (f : bfile) (cell k : N) : option bfile :=
   if b_len f <? cell + 8 then None
   else Some (wr64 f cell (N.min (rd64 f cell + k) RMAX64)).
-
-(* the reservation would need a file of 4 GiB: round(end, pageSize) wraps to 0 *)
-Definition wraps (f : bfile) (H : N) (name : list N) : bool :=
-  match load32 f (H + c_limitOff) with
-  | Some limit => let e := snd (place32 H limit (N.of_nat (length name))) in
-                  (b_len f <? e) && (R32 - RPAGE <? e)
-  | None => false
-  end.
